@@ -264,13 +264,23 @@ def generate(run_seed, tier):
     N = c.choice([1, 2, 3, 4, 5, 7, Rn, Rn + 1, 2 * Rn + 1,
                   c.randint(2, 48 if tier == 'quick' else 128)])
     N = max(1, N)
+    big = Rn >= 2 and c.random() < (0.006 if tier == 'quick' else 0.003)
+    if big:
+        N = c.randint(1030, 1150)      # more than 1024 samples in one job
     targets = [0, 1, Rn - 1, Rn, Rn + 1, 2 * Rn - 1, 2 * Rn + 1, N, N // 2]
     k = min(N, max(0, c.choice(targets)))
     frac = min(1.0, (k + 0.5) / N) if k < N else 1.0
+    if big:
+        frac = 1.0
     d = st('data')
     family = d.choice(WEIGHT_FAMILIES)
     weights = gen_weights(d, N, family)
     samples_u = [[d.uniform(0.02, 0.98) for _ in fit] for _ in range(N)]
+    if c.random() < 0.1 and N >= 3:
+        # a sharply peaked posterior: neighbouring samples agree to ~1e-6
+        u0 = [d.uniform(0.1, 0.9) for _ in fit]
+        samples_u = [[u + 1e-6 * d.uniform(-1, 1) for u in u0]
+                     for _ in range(N)]
     if c.random() < 0.2 and N >= 3 and len(fit) >= 2:
         # one fitted coordinate takes only a few distinct values: derived
         # parameters that depend on it alone have exact ties between samples
@@ -282,7 +292,10 @@ def generate(run_seed, tier):
     cfg = {'R': Rn, 'model': mcfg, 'obs': S.gen_obs(c, mcfg), 'fit': fit,
            'derived': derived, 'N': N, 'sigma_fraction': frac,
            'weight_family': family, 'weights': weights,
-           'samples_u': samples_u, 'pyseed': d.randrange(2**31)}
+           'samples_u': samples_u, 'pyseed': d.randrange(2**31),
+           'native_binner': c.random() < 0.2}
+    if big:
+        cfg['derived'] = cfg['derived'][:1]
     if c.random() < 0.3:
         # a second solution (mode) post-processed by the same objects
         N2 = max(1, c.choice([1, 2, 3, Rn, Rn + 1, N, c.randint(2, 24)]))
@@ -348,6 +361,11 @@ def _build_rank(cfg, samples, weights):
     obs = S.build_obs(cfg['obs'])
     opt = make_optimizer_class()(obs, model, samples, weights,
                                  cfg['sigma_fraction'])
+    if cfg.get('native_binner'):
+        # an observation on the model's own grid: the binner hands its input
+        # back (binned IS native, the same array object)
+        from taurex.binning import NativeBinner
+        opt._binner = NativeBinner()
     S.configure_optimizer(opt, cfg['fit'], cfg['derived'])
     opt.compile_params()
     return model, obs, opt
@@ -561,6 +579,9 @@ def execute(case, keep_text=False):
                    'binned_std': []}
             wl = []
             binner = obs0.create_binner()
+            if cfg.get('native_binner'):
+                from taurex.binning import NativeBinner
+                binner = NativeBinner()
             for theta, w in bl:
                 S.ref_set(model0, obs0, fit_by_name, order, theta)
                 ng, native, tau, _ = model0.model(wngrid=obs0.wavenumberGrid,
